@@ -38,6 +38,9 @@ CHECKS = {
  "C06": dict(technique="TLA+ P-spec SemAbs (name generations, counters, owner rules, crash) refined by I-spec SemProto (one action per sem_* system call over a kernel namespace model, SIGKILL at any pc), proved by TLC (the pre-fix protocol is rejected); every edge of a bounded SemProto graph executed on real processes parked at link-time system-call gates; random multi-process histories, SIGKILL at every system call of new/free/acquire/release followed by the documented recovery, and concurrent k-exclusion histories validated by TLC (SemTrace)",
              text="Histories over several names, handles and processes (with really blocking acquires) must be behaviours of SemAbs, with the kernel counter read back through the library's own descriptor after every call; crash points are enumerated at system-call granularity with a real SIGKILL and the recovery sequence must end in a fresh counter of exactly the requested value; concurrent acquirers/releasers in threads and processes must be linearizable (an acquire returning without a unit has no linearization).",
              design_ref="3 C06", note="Trusted: " + TB + "; --wrap seams around sem_*/shm_* calls; parent-serialised children; psemaphore-sysv.c is not build-selectable here and is not checked."),
+ "C07": dict(technique="TLA+ P-spec ShmAbs (segment generations, bytes, sizes, one lock per generation, crash) and I-spec ShmProto (one action per shm_open/fstat/ftruncate/mmap/sem_* call of p_shm_new incl. the lock-semaphore sub-protocol, SIGKILL anywhere, finding patterns as ghost 'tainted' set) checked by TLC; every edge of the two-creator graph and TLC's own counterexamples executed on real processes parked at system-call gates; multi-process histories (bytes, sizes, blocking lock, owner free, recovery) validated by TLC (ShmTrace); free-running lock histories validated by LockLin",
+             text="TLC enumerates all interleavings of two first-time creators at system-call granularity with a kill at any point and proves NewSucceeds / OneLock / Recoverable outside three named patterns; the patterns and the whole remaining graph are replayed on the real library (real kernel objects, real SIGKILL), each followed by two-handle probes (same bytes, same size, mutual exclusion of the lock) and the documented recovery, all judged by the P-spec; the three patterns reproduce on the real code and are listed as known findings.",
+             design_ref="3 C07", note="Trusted: " + TB + "; --wrap seams; parent-serialised children; pshm-sysv.c not build-selectable here."),
 }
 NA = {
  "C17": "pure encode/decode fidelity against the platform's inet_pton/inet_ntop over all addresses: no state, transitions or histories for a TLA+ specification to constrain (DESIGN.md section 5)",
